@@ -66,7 +66,7 @@ func TestVerifC14Stress(t *testing.T) {
 func c14StressRound(t *testing.T, rec *kit.Rec, round int) {
 	const password = "c14-stress"
 	rng := rec.RNG("stress", round)
-	ctx, cancel := context.WithTimeout(context.Background(), 10*time.Minute)
+	ctx, cancel := context.WithTimeout(context.Background(), 25*time.Minute)
 	defer cancel()
 	be := kit.NewVBackend(5, true)
 	be.SetYield(8, rec.RNG("yield", round))
@@ -87,7 +87,7 @@ func c14StressRound(t *testing.T, rec *kit.Rec, round int) {
 	defer os.RemoveAll(base)
 
 	const writers, readers = 3, 4
-	backupsPerWriter := rec.Env.Pick(3, 6)
+	backupsPerWriter := rec.Env.Pick(2, 6)
 	var vmu sync.Mutex
 	versions := map[string]c14Version{} // "w<writer>/v<version>" -> content
 	var writersDone atomic.Int32
@@ -125,7 +125,7 @@ func c14StressRound(t *testing.T, rec *kit.Rec, round int) {
 					}
 					size := wrng.Range(1, 40000)
 					if wrng.Chance(1, 8) {
-						size = wrng.Range(520000, 900000) // multi-chunk
+						size = wrng.Range(520000, 700000) // multi-chunk
 					}
 					_ = os.WriteFile(filepath.Join(dir, name), wrng.Bytes(size), 0o644)
 				}
@@ -256,7 +256,7 @@ func c14StressRound(t *testing.T, rec *kit.Rec, round int) {
 	go func() { wg.Wait(); close(done) }()
 	select {
 	case <-done:
-	case <-time.After(12 * time.Minute):
+	case <-time.After(27 * time.Minute):
 		stalled.Store(true)
 		cancel()
 		<-done
